@@ -165,6 +165,18 @@ def drive(ctx, mon, tier, only_case=None):
                         with mon.quiet():
                             t = L.AnsiString(v)
                         t.remove_formatting(sel, a, b)
+                if nv <= 40:
+                    # the integer 0 (RESET) given directly selects the settings equal to '0'
+                    with mon.quiet():
+                        t = L.AnsiString(v)
+                        t.apply_formatting('[0', 1, 3, topmost=bool(nv % 2))
+                        if nv % 3 == 0:
+                            t = L.AnsiStr(t)
+                    t.remove_formatting(0, 0, 4)
+                    with mon.quiet():
+                        t = L.AnsiString(v)
+                        t.apply_formatting(0, 0, 4, topmost=False)
+                    t.remove_formatting(0, 2, None)
             ctx.extra['n_small_scope_values'] = nv
             return
         if case == 1:
